@@ -386,7 +386,7 @@ func (w *World) structStdoutWriters(allowed []string) []structResult {
 						}
 						// the msg library: the F-variants write to the stream they are given, the others
 						// (Info, Warn, Success, Title ...) straight to the process's standard output
-						if callee.Pkg != nil && strings.HasSuffix(callee.Pkg.Pkg.Path(), "FollowTheProcess/msg") && !strings.HasPrefix(callee.Name(), "F") && callee.Name() != "Error" {
+						if callee.Pkg != nil && strings.HasSuffix(callee.Pkg.Pkg.Path(), "FollowTheProcess/msg") && !strings.HasPrefix(callee.Name(), "F") && callee.Name() != "Error" && callee.Name() != "init" && callee.Synthetic == "" {
 							what = "call to msg." + callee.Name() + " (writes to os.Stdout)"
 						}
 					}
